@@ -2,10 +2,14 @@
 
 run_unit(ctx) = correspondence (extracted Coq model coq/Wire/C19_motorW.v vs the real class, per
 op: outcome, return value, every attribute, recorded sleeps, level events, the ghost "last
-command") + property oracle evaluated on the real object after every op + an
-implementation-only stream of IEEE specials / strings / huge ints inside the guard (oracle:
-invariant + atomicity of failing calls, real Reduino.Utils.sleep validation active) + replay of
-this unit's listed findings.
+command") + property oracle evaluated on the real object after every op + calls with NaN /
+infinite speeds and durations (model with specials Host/ActuatorsX.v vs the real class, and the
+oracle; real Reduino.Utils.sleep validation active) + an implementation-only stream of IEEE
+specials / strings / huge ints inside seeded random histories (oracle: invariant + atomicity of
+failing calls) + replay of this unit's findings.  The two former findings of this unit
+(F-C19-motor-nan-speed, F-C19-motor-nonfinite-duration) are repaired in the project (kind
+"fixed"): they exclude nothing, their witnesses are replayed FIRST on every run and a witness
+that fails again is a VIOLATION whose replay is that witness.
 The property module harness/props/c19.py calls run_unit and merges the coverage it returns.
 """
 from __future__ import annotations
@@ -26,7 +30,11 @@ META_PART = (
     "clamped target, sleeps summing to exactly the duration), C19_run_for (one sleep of exactly duration_ms, ends braked), "
     "C19_motor_failed_call_atomic, C19_motor_raises, C19_motor_set_speed/_backward/_stop_coast (coq/Props/C19_motor.v) are "
     "proved for all arguments (int/float/bool/non-number) and histories about a Gallina model of DCMotor.py over exact "
-    "rationals (_RAMP_STEPS and the default of backward() regenerated from the source on every run); the extracted model is run "
+    "rationals (_RAMP_STEPS and the default of backward() regenerated from the source on every run); for NaN / infinite speeds "
+    "and durations (model of the validations over floats with IEEE specials) C19_motor_speed_bound, C19_motor_nan_speed_rejected, "
+    "C19_run_for_failed_call_atomic, C19_ramp_failed_call_atomic, C19_motor_specials_reduce (every such call is an ordinary call "
+    "or raises ValueError with nothing written), C19_motor_inv_reachable_specials, C19_run_for_any_argument - the clauses that "
+    "were refuted before the repair of _clamp_speed / _check_duration in the project; the extracted model is run "
     "against the real class on every op of a speeds x durations alphabet from 10 seed states, exhaustive op pairs, a "
     "constructor table and seeded random histories, comparing outcome, return value, every attribute, recorded sleeps and "
     "level events per op."
@@ -244,21 +252,38 @@ def generate(ctx):
     return cases
 
 
-def specials_cases():
-    """Outside the model, inside the guard (no NaN speed, durations that Reduino.Utils.sleep accepts): implementation only,
-    oracle = invariant + atomicity of failing calls; the real Reduino.Utils.sleep validation is active."""
+def specials_cases(rng, n_random):
+    """Outside the finite model: IEEE specials (NaN included), -0.0, numeric strings, ints beyond the float range, as speeds and
+    as durations - implementation only, oracle = invariant + atomicity of failing calls; the real Reduino.Utils.sleep
+    validation is active.  Fixed table from four prefixes + seeded random histories that mix such calls with ordinary ones."""
     big = 10 ** 400
     ops = [("set_speed", INF), ("set_speed", -INF), ("set_speed", -0.0), ("set_speed", "0.5"), ("set_speed", " -1e3 "), ("set_speed", "abc"),
            ("set_speed", big), ("set_speed", -big), ("backward", INF), ("backward", -INF), ("backward", "0.25"), ("backward", "x"), ("backward", big),
            ("ramp", INF, 20), ("ramp", -INF, 0), ("ramp", "0.25", 20), ("ramp", "x", 20), ("ramp", H, "5"), ("ramp", big, 5), ("ramp", H, -INF),
            ("ramp", H, NAN), ("ramp", H, -0.0), ("ramp", NAN, -1),
            ("run_for", 20, INF), ("run_for", 0, -INF), ("run_for", 20, "0.5"), ("run_for", 20, "x"), ("run_for", "5", H), ("run_for", 20, big),
-           ("run_for", -INF, H), ("run_for", -0.0, H), ("run_for", -big, H), ("run_for", -1, NAN)]
+           ("run_for", -INF, H), ("run_for", -0.0, H), ("run_for", -big, H), ("run_for", -1, NAN),
+           # the region the two repaired findings used to exclude: NaN speeds, NaN / infinite / unrepresentable durations
+           ("set_speed", NAN), ("backward", NAN), ("ramp", NAN, 20), ("ramp", NAN, 0), ("run_for", 20, NAN), ("run_for", 0, NAN),
+           ("run_for", NAN, H), ("run_for", INF, H), ("run_for", big, H), ("run_for", NAN, NAN), ("run_for", INF, None), ("run_for", NAN, 0),
+           ("ramp", H, INF), ("ramp", H, big), ("ramp", -2, NAN), ("ramp", None, NAN), ("ramp", NAN, INF), ("ramp", H, -big),
+           ("run_for", INF, INF), ("ramp", INF, INF), ("run_for", NAN, "x"), ("ramp", "x", INF)]
     cases = []
     for pre in ([], [("set_speed", H)], [("invert",), ("set_speed", -H)], [("set_speed", H), ("stop",)]):
         for o in ops:
             cases.append(("motor", PINS, pre + [o, ("get_mode",), ("invert",), ("invert",)]))
     cases += [("motor", c, [("set_speed", H)]) for c in ([2.0, 3, 5], ["2", 3, 5], [NAN, 3, 5], [2, 3, INF], [big, 3, 5], [big, big, 5])]
+    odd_speed = [NAN, INF, -INF, -0.0, "0.5", "x", big, -big, NAN, NAN]
+    odd_dur = [NAN, INF, -INF, -0.0, "5", big, -big, NAN, INF]
+    for _ in range(n_random):
+        ops = random_seq(rng)
+        for _ in range(rng.randint(1, 4)):
+            i = rng.randrange(len(ops) + 1)
+            k = rng.random()
+            sp = rng.choice(odd_speed) if rng.random() < 0.7 else rng.choice([H, -2, 0, None])
+            du = rng.choice(odd_dur) if rng.random() < 0.7 or not isinstance(sp, (float, str)) else rng.choice([0, 20, Fr(5, 2), -1])
+            ops.insert(i, ("set_speed", sp) if k < 0.25 else ("backward", sp) if k < 0.4 else ("ramp", sp, du) if k < 0.7 else ("run_for", du, sp))
+        cases.append(("motor", PINS, ops))
     return cases
 
 
@@ -266,10 +291,9 @@ X_KINDS = ["ValueError", "TypeError", "OverflowError"]
 
 
 def x_stream(ctx, st):
-    """Host/ActuatorsX.v (xclamp, run_for_x, ramp_x) vs the real class on floats that may be IEEE specials, with the real
-    Reduino.Utils.sleep validation active (correspondence only: this stream contains the witnesses of the two listed findings)"""
-    if not ctx.exes.get(UNIT):
-        return 0
+    """Host/ActuatorsX.v (xclamp, mstep_x: set_speed / backward / ramp / run_for with arguments that may be IEEE specials)
+    vs the real class, with the real Reduino.Utils.sleep validation active; every case also goes through the property
+    oracle (this region - NaN speeds, NaN / infinite durations - was outside the guard before the repair)."""
     n_dis = 0
 
     def bad(what, case, mo, io):
@@ -278,53 +302,71 @@ def x_stream(ctx, st):
         if n_dis <= 5:
             ctx.disagree("motor: " + what, S.replayable(case), mo, io)
 
+    have_model = bool(ctx.exes.get(UNIT))
     # (a) _clamp_speed
     xs = [NAN, INF, -INF] + [Fr(k, 4) for k in range(-9, 10)] + [Fr(1) + EPS, Fr(-1) - EPS, Fr(1 << 40), Fr(-(1 << 40))]
     cases = [("motor", PINS, [("_clamp_speed", x)]) for x in xs]
     impl = S.run_impl("motor", cases, real_sleep=True)
-    model = ctx.model([[2, S.WX(x)] for x in xs], unit=UNIT)
-    for case, m, r in zip(cases, model, impl):
+    model = ctx.model([[2, S.WX(x)] for x in xs], unit=UNIT) if have_model else [None] * len(cases)
+    for case, x, m, r in zip(cases, xs, model, impl):
         rs = r["steps"][0]
         got = S.i_val(rs["ret"]) if rs["res"] == "ok" else ("raise", rs["ret"])
-        if not S.same(S.m_x(m), got):
-            bad("_clamp_speed on a float with IEEE specials", case, S.m_x(m), got)
+        st.oracle_checks += 1
+        if not (got[0] == "f" and abs(got[1]) <= 1) and not (x != x and got == ("raise", "ValueError")):
+            ctx.fail(f"_clamp_speed({S.show(x)}) is neither a float in [-1, 1] nor (for NaN) a ValueError", S.replayable(case),
+                     "a float in [-1, 1]" if x == x else "ValueError", got, key="motor-speed-bound")
+        if m is None:
+            continue
+        want = S.m_x(m[1]) if m[0] == 0 else ("raise", "ValueError")
+        if not (want[0] == got[0] and (S.same(want, got) if want[0] != "raise" else want == got)):
+            bad("_clamp_speed on a float with IEEE specials", case, want, got)
     n = len(cases)
-    # (b) run_for / ramp with a possibly special duration, after a few prefixes
+    # (b) the four calls that take a speed and/or a duration, after a few prefixes
     durs = [NAN, INF, -INF, Fr(20), Fr(0), Fr(-1), Fr(5, 2), Fr(1, 1024)]
-    sps = [H, -2, 0, None, True, Fr(-1, 8)]
+    sps = [H, -2, 0, None, True, Fr(-1, 8), NAN, INF, -INF]
     pres = [[], [("set_speed", H)], [("invert",), ("set_speed", -H)], [("set_speed", H), ("stop",)], [("ramp", Fr(1), 20), ("invert",)]]
     cases, wires = [], []
     for pre in pres:
         wpre = [[S.MOTOR_OPS[o[0]]] + [S.W(a) for a in o[1:]] for o in pre]
-        for d in durs:
-            for v in sps:
+        head = [3, [S.W(a) for a in PINS], wpre]
+        for v in sps:
+            cases.append(("motor", PINS, pre + [("set_speed", v)]))
+            wires.append(head + [[2, S.WXA(v)]])
+            cases.append(("motor", PINS, pre + [("backward", v)]))
+            wires.append(head + [[3, S.WXA(v)]])
+            for d in durs:
                 cases.append(("motor", PINS, pre + [("run_for", d, v)]))
-                wires.append([3, [S.W(a) for a in PINS], wpre, [0, S.WX(d), S.W(v)]])
+                wires.append(head + [[0, S.WX(d), S.WXA(v)]])
                 cases.append(("motor", PINS, pre + [("ramp", v, d)]))
-                wires.append([3, [S.W(a) for a in PINS], wpre, [1, S.W(v), S.WX(d)]])
+                wires.append(head + [[1, S.WXA(v), S.WX(d)]])
     impl = S.run_impl("motor", cases, real_sleep=True)
-    model = ctx.model(wires, unit=UNIT)
+    model = ctx.model(wires, unit=UNIT) if have_model else [None] * len(cases)
     for case, m, r in zip(cases, model, impl):
-        if m == [2]:
-            bad("model could not decode the special-duration case (harness bug)", case, m, None)
-            continue
         rs = r["steps"][-1]
-        want = "ok" if m[2][0] == 0 else X_KINDS[m[2][1]]
         got = "ok" if rs["res"] == "ok" else rs["ret"]
-        st.bump(st.outcomes, "motor." + case[2][-1][0] + "[special-duration]:" + got)
+        special = any(S.is_special(a) for a in case[2][-1][1:])
+        st.bump(st.outcomes, "motor." + case[2][-1][0] + ("[special-argument]:" if special else "[float-argument]:") + got)
+        # the tail of getters makes the oracle look at the object after the call as well
+        oracle(ctx, st, case, r)
+        if m is None:
+            continue
+        if m == [2]:
+            bad("model could not decode the special-argument case (harness bug)", case, m, None)
+            continue
+        want = "ok" if m[2][0] == 0 else X_KINDS[m[2][1]]
         if want != got:
-            bad("outcome of a call with a possibly special duration", case, want, got)
+            bad("outcome of a call whose arguments may be IEEE specials", case, want, got)
             continue
         msnap = S.m_motor_snap(m[0])
         isnap = {k: S.i_val(v) for k, v in rs["snap"].items()}
         diff = [k for k in msnap if not S.same(msnap[k], isnap.get(k, ("?",)))]
         if diff or set(msnap) != set(isnap):
-            bad(f"attributes {diff} after a call with a possibly special duration", case, msnap, isnap)
+            bad(f"attributes {diff} after a call whose arguments may be IEEE specials", case, msnap, isnap)
             continue
         mev, iev = S.m_events("motor", m[1]), S.i_events(rs["events"])
         if len(mev) != len(iev) or any(not (a[0] == b[0] and len(a) == len(b) and all(S.same(x, y) for x, y in zip(a[1:], b[1:])))
                                        for a, b in zip(mev, iev)):
-            bad("events of a call with a possibly special duration", case, mev, iev)
+            bad("events of a call whose arguments may be IEEE specials", case, mev, iev)
     return n + len(cases)
 
 
@@ -332,9 +374,38 @@ def x_stream(ctx, st):
 # entry points
 # --------------------------------------------------------------------------
 
+def own_findings(ctx):
+    """entries of this unit: known_findings.d/C19_motor.json (this package's own file) takes precedence over the merged
+    known_findings.json, which ./check manifest assembles from it"""
+    items = {f["id"]: f for f in ctx.findings if f.get("unit") == UNIT}
+    own = C.VERIF / "known_findings.d" / (UNIT + ".json")
+    if own.exists():
+        for e in json.loads(own.read_text()):
+            if e.get("unit") == UNIT:
+                items[e["id"]] = e
+    return [f for f in items.values() if "witness" in f]
+
+
+def replay_fixed(ctx):
+    """Repaired defects (kind "fixed") suppress nothing: their witnesses run FIRST through the same oracle as every
+    generated case; one that fails again is a property failure (VIOLATION) whose replay is the witness - never a
+    KNOWN-FINDING line.  The failure takes the key of its class, so the witness is the replay reported for the class."""
+    n = 0
+    for f in own_findings(ctx):
+        if f.get("kind") != "fixed":
+            continue
+        n += 1
+        wc = S.witness_case(f["witness"])
+        r = S.run_impl("motor", [wc], real_sleep=True)[0]
+        for g in S.probe_oracle(ctx, oracle, wc, r, safety_only=True)[:1]:
+            ctx.fail(f"{f.get('fixed', 'fixed: ' + f['id'])} - the repaired defect {f['id']} is back: {g['what']}",
+                     dict(g["case"], witness_of=f["id"]), g["expected"], g["observed"], key=g["key"])
+    return n
+
+
 def replay_findings(ctx):
-    for f in ctx.findings:
-        if f.get("unit") != UNIT or f.get("kind") == "fixed" or "witness" not in f:
+    for f in own_findings(ctx):
+        if f.get("kind") == "fixed":
             continue
         wc = S.witness_case(f["witness"])
         r = S.run_impl("motor", [wc], real_sleep=True)[0]
@@ -344,7 +415,8 @@ def replay_findings(ctx):
 
 def run_unit(ctx: C.Ctx) -> dict:
     st = S.Stats()
-    n_fail0 = len(ctx.failures)
+    n_fixed = replay_fixed(ctx)
+    n_fail0 = len(ctx.failures)          # failures of replayed fixed witnesses stay in front
     stream_cases = generate(ctx)
     cases = [c for _, c in stream_cases]
     for s, _ in stream_cases:
@@ -359,7 +431,7 @@ def run_unit(ctx: C.Ctx) -> dict:
         if m is not None and n_dis < 25:
             if not S.compare_case(ctx, st, case, m, r):
                 n_dis += 1
-    spec = specials_cases()
+    spec = specials_cases(ctx.rng, 1500 if ctx.tier == "thorough" else 200)
     n_spec = 0
     for case, r in zip(spec, S.run_impl("motor", spec, real_sleep=True)):
         n_spec += len(r["steps"])
@@ -367,12 +439,13 @@ def run_unit(ctx: C.Ctx) -> dict:
     n_x = x_stream(ctx, st)
     replay_findings(ctx)
     # report the shortest failing history of each class first (ctx.finish keeps the first per key)
-    ctx.failures[n_fail0:] = sorted(ctx.failures[n_fail0:], key=lambda f: len(f["case"]["calls"]))
+    ctx.failures[n_fail0:] = sorted(ctx.failures[n_fail0:], key=lambda f: (len(f["case"]["calls"]), len(str(f["case"]["calls"]))))
 
     samples = [S.show_case(cases[i]) for i in (0, len(cases) // 3, len(cases) // 2, len(cases) - 1)]
     dist = S.distribution(st)
     dist["specials_stream_ops_implementation_only"] = n_spec
-    dist["calls_with_ieee_special_floats_compared_with_model"] = n_x
+    dist["calls_with_ieee_special_floats_compared_with_model_and_judged_by_the_oracle"] = n_x
+    dist["fixed_witnesses_replayed_first"] = n_fixed
     return {
         "unit": UNIT,
         "evaluations": st.steps,
@@ -380,17 +453,22 @@ def run_unit(ctx: C.Ctx) -> dict:
         "rule": ("DCMotor: constructor table (%d pin triples: ints, bools equal to ints, floats, None, duplicates) + every op of the full alphabet "
                  "(%d ops: speeds -2,-1,-1/2,-1/1024,0,1/1024,1/2,1,2,None,True x durations -1,0,20,100,5/2,None,True) followed by invert;invert from 10 "
                  "seed states + exhaustive pairs (quick: %dx%d, thorough: %dx%d and %dx%d) from the same seeds + seeded random histories (3-15 ops; 70%% in "
-                 "range, 20%% boundary, 10%% invalid; a second stream draws speeds from non-dyadic binary64 values such as 0.1, 0.3, 1/3). evaluations = method calls executed on the real objects and compared field by field with the model; "
+                 "range, 20%% boundary, 10%% invalid; a second stream draws speeds from non-dyadic binary64 values such as 0.1, 0.3, 1/3) + "
+                 "set_speed / backward / ramp / run_for with speeds in {1/2,-2,0,None,True,-1/8,NaN,inf,-inf} x durations in {NaN,inf,-inf,20,0,-1,5/2,1/1024} "
+                 "after 5 prefixes (model with IEEE specials vs class, and oracle) + a table and seeded random histories with NaN / inf / -0.0 / numeric strings / "
+                 "ints beyond the float range as speeds and durations (implementation + oracle only). evaluations = method calls executed on the real objects and compared field by field with the model; "
                  "distinct non-trivial = distinct (full state before, call) with a non-getter call that raised, changed state or emitted events."
                  % (len(CTORS), len(FULL), len(QUICK), len(QUICK), len(QUICK), len(FULL), len(FULL), len(QUICK))),
         "samples": samples,
         "distribution": dist,
-        "guard": ("speed arguments are not NaN (F-C19-motor-nan-speed) and duration_ms is a finite number below 2**31 that Reduino.Utils.sleep/time.sleep "
-                  "accept (F-C19-motor-nonfinite-duration); model streams use ints, bools, None and dyadic floats only"),
+        "guard": ("none: no listed finding excludes anything (F-C19-motor-nan-speed and F-C19-motor-nonfinite-duration are repaired, kind=fixed; NaN speeds and "
+                  "NaN / infinite / unrepresentable durations are generated and judged like every other argument, their witnesses are replayed first). The streams "
+                  "of the finite model use ints, bools, None and dyadic floats; finite durations stay below 2**31 ms (the wait itself is replaced by a recorder, "
+                  "see unmodelled)"),
         "unmodelled": [
             "binary64 rounding: model floats are exact rationals; compared to 1e-9 (a ramp ending 1e-17 away from 0 with mode 'drive' is float rounding, tolerated and counted in float_zero_residue_steps_tolerated)",
-            "IEEE specials (inf, -0.0), numeric strings accepted by float() in DCMotor._clamp_speed, other strings and ints beyond the float range: sent to the implementation only, oracle = invariant + atomicity of failing calls",
-            "the wait itself: the package-level sleep is replaced by a recorder (as tests/test_actuators.py does); in the specials stream and the finding replays the recorder additionally runs the real Reduino.Utils.sleep validation and hands non-finite durations to the real time.sleep",
+            "-0.0, numeric strings accepted by float() in DCMotor._clamp_speed, other strings and ints beyond the float range: sent to the implementation only, oracle = invariant + atomicity of failing calls (NaN and the infinities are in the model with specials, Host/ActuatorsX.v, for one call after a prefix of ordinary calls; inside longer random histories they too are judged by the oracle only)",
+            "the wait itself: the package-level sleep is replaced by a recorder (as tests/test_actuators.py does); in the specials streams and the witness replays the recorder additionally runs the real Reduino.Utils.sleep validation and hands non-finite durations to the real time.sleep. Finite durations beyond what the platform's time.sleep accepts (about 9.2e12 ms = 292 years on CPython/Linux: OverflowError from time.sleep after run_for applied its speed) are not generated and not modelled",
             "DCMotor.__repr__ (debug helper)", "keyword-argument calls (C08's subject); direct writes to the attributes; a patched _RAMP_STEPS <= 0 (the model follows the generated constant)",
         ],
         "trusted_base": [
